@@ -63,12 +63,35 @@ def specVal : Bytes → Int → M GoVal := fun p oid =>
   else if oid = 23 then pure (.int (toSigned 32 (rd 4 p)))
   else if oid = 20 then pure (.int (toSigned 64 (rd 8 p)))
   else if oid = 26 then pure (.int (rd 4 p))
+  else if oid = 602 ∨ oid = 604 then pure (.str [])     -- (only used with payloads that are no path at all)
   else pure (.str (Model.LocalDec.safeString p))    -- text-like and unknown types: the text, sanitised
 
 def specRow (cols : List Spec.Col) (r : Spec.RowV) : String :=
   showM (fun ps => showRow (Model.toRow ps)) (Spec.rowView specVal cols r)
 
 def dec := Model.LocalDec.dec
+
+/-! ### run-time check that a generated case satisfies the hypotheses of the theorems (tag `hyp=ok`) -/
+
+def colMatchB (i : Nat) (mc : Model.Column) (c : Spec.Col) : Bool :=
+  mc.name == c.name && mc.typid == c.typid && mc.len == c.len && (mc.num == 0 || mc.num == (i : Int) + 1) &&
+  Model.colAlign mc == c.align
+
+def colsMatchB : Nat → List Model.Column → List Spec.Col → Bool
+  | _, [], [] => true
+  | i, mc :: ms, c :: cs => colMatchB i mc c && colsMatchB (i + 1) ms cs
+  | _, _, _ => false
+
+/-- hypotheses of C03_layout / C03_decodeTuple / C03_scanned -/
+def rowHyp (cols : List Spec.Col) (mcols : List Model.Column) (r : Spec.RowV) : Bool :=
+  colsMatchB 0 mcols cols && decide (r.WF cols) && !mcols.isEmpty
+
+def blocksWF (bs : List Spec.Block) : Bool :=
+  bs.all fun b => match b with
+    | .page p => decide p.WF
+    | .zero => true
+
+def hypTag (b : Bool) : String := if b then "hyp=ok" else "hyp=no"
 
 /-! ### rowdec -/
 
@@ -112,11 +135,27 @@ def fixedRows : List (List Spec.Col × Spec.RowV) :=
     ([b "f", tx "t"], row [some (.fixed [1]), some (.long (List.replicate 60 0x61))] 2),         -- 4-byte header starting with 0x00
     ([i4 "a", i4 "b", i4 "c"], row [f4 1, f4 2, f4 3] 2) ]
 
+/-- rows presented with Align = 0 on every column: the tool must know the type's alignment itself.
+(bool, path, int4): path is 'd' aligned, so its 4-byte header sits at offset 8 -/
+def fixedRowsAlign0 : List (List Spec.Col × Spec.RowV) :=
+  let row (vals : List (Option Spec.Datum)) (natts : Nat) : Spec.RowV := { vals, natts, infomask := 0x0900 }
+  [ ([⟨strBytes "f", 16, 1, 1⟩, ⟨strBytes "p", 602, -1, 8⟩, ⟨strBytes "n", 23, 4, 4⟩],
+      row [some (.fixed [1]), some (.long [97, 98, 99]), some (.fixed (le 4 777))] 3),
+    ([⟨strBytes "f", 16, 1, 1⟩, ⟨strBytes "p", 604, -1, 8⟩, ⟨strBytes "n", 20, 8, 8⟩],
+      row [some (.fixed [1]), some (.long [97]), some (.fixed (le 8 5))] 3),
+    ([⟨strBytes "f", 16, 1, 1⟩, ⟨strBytes "r", 3926, -1, 8⟩, ⟨strBytes "n", 23, 4, 4⟩],
+      row [some (.fixed [1]), some (.external (List.replicate 16 9)), some (.fixed (le 4 777))] 3),
+    ([⟨strBytes "f", 21, 2, 2⟩, ⟨strBytes "r", 1016, -1, 8⟩, ⟨strBytes "n", 23, 4, 4⟩],
+      row [some (.fixed [1, 0]), none, some (.fixed (le 4 777))] 3) ]
+
 def rowdecGen (seed idx size : Nat) : Case :=
   let (cols, mcols, r) : List Spec.Col × List Model.Column × Spec.RowV :=
     if idx < fixedRows.length then
       let (c, r) := fixedRows.getD idx default
       (c, Gen.plainModelCols c, r)
+    else if idx < fixedRows.length + fixedRowsAlign0.length then
+      let (c, r) := fixedRowsAlign0.getD (idx - fixedRows.length) default
+      (c, Gen.align0ModelCols c, r)
     else
       (do let cols ← Gen.genSchema size
           let r ← Gen.genRow cols
@@ -124,10 +163,10 @@ def rowdecGen (seed idx size : Nat) : Case :=
           return (cols, mcols, r)).run' (Prng.ofSeed seed idx)
   let t := scanned (Spec.formTuple cols r)
   let model := showM showRowOpt (Model.decodeTuple dec t mcols)
-  { tags := rowTags cols mcols r ++ ["nt"], model, spec := specRow cols r,
+  { tags := rowTags cols mcols r ++ [hypTag (rowHyp cols mcols r), "nt"], model, spec := specRow cols r,
     args := [showCols mcols, showBitmap t.bitmap, hexRle t.data] }
 
-def rowdec : Family := { name := "rowdec", gen := rowdecGen, eval := rowdecEval, fixed := fixedRows.length }
+def rowdec : Family := { name := "rowdec", gen := rowdecGen, eval := rowdecEval, fixed := fixedRows.length + fixedRowsAlign0.length }
 
 /-! ### rowexh: batches of the exhaustive enumeration -/
 
@@ -226,8 +265,11 @@ def rowfileGen (seed idx size : Nat) : Case :=
   let vis := idx % 2 == 1
   let file := Spec.encHeap blocks []
   let want := vers.filter fun v => !vis || Spec.liveBits (Spec.formTuple cols v.2).infomask
-  { tags := [s!"pages={blocks.length}", (if want.length == 0 then "rows=0" else if want.length < 10 then "rows<10" else "rows>=10")] ++
-            (if want.isEmpty then [] else ["nt"]),
+  -- hypotheses of C03_file
+  let hyp := blocksWF blocks && colsMatchB 0 mcols cols && !mcols.isEmpty && vers.all (fun v => decide (v.2.WF cols)) &&
+    decide ((blocks.flatMap Spec.Block.tuples) = vers.map fun v => Spec.formTuple cols v.2)
+  { tags := [s!"pages={blocks.length}", (if want.length == 0 then "rows=0" else if want.length < 10 then "rows<10" else "rows>=10"),
+             hypTag hyp] ++ (if want.isEmpty then [] else ["nt"]),
     model := showM showRows (Model.readRows dec file mcols vis),
     spec := joinWith ";" (want.map fun v => specRow cols v.2),
     args := [showCols mcols, b2s vis, hexRle file] }
@@ -265,6 +307,26 @@ def rowviewsGen (seed idx size : Nat) : Case :=
 
 def rowviews : Family := { name := "rowviews", gen := rowviewsGen, eval := rowviewsEval }
 
+/-- rowmasks: all 65 536 infomasks through the row interfaces, 256 one-column rows per case (the row's value is
+its own infomask); case idx covers masks 256·idx … 256·idx + 255 -/
+def rowmasksGen (_seed idx _size : Nat) : Case :=
+  let masks := (List.range 256).map (· + 256 * (idx % 256))
+  let cols : List Spec.Col := [⟨strBytes "m", 21, 2, 2⟩]
+  let mcols := Gen.plainModelCols cols
+  -- (HASNULL etc. are part of the mask here: the tuple is laid out by hand, header 24 bytes, 2 data bytes)
+  let slots := masks.map fun m => (([] : Bytes), Gen.plainTuple m 1 (le 2 m))
+  let file := Spec.encPage (Gen.mkPage slots ((List.range 256).map .normal) 0)
+  -- a mask with HASNULL set has no bitmap room in a 24-byte header: byte 23 is the bitmap, 0 → the column is NULL
+  let val (m : Nat) : String := if m % 2 == 1 then "{6d:~}" else "{6d:i" ++ toString (toSigned 16 m) ++ "}"
+  let rows (ms : List Nat) := joinWith ";" (ms.map val)
+  let live := masks.filter Spec.liveBits
+  let del := masks.filter Spec.deletedBits
+  let spec := "all=" ++ rows masks ++ "|live=" ++ rows live ++
+    "|del=" ++ joinWith ";" (del.map fun m => s!"0/0/2/{val m}") ++ "|wv=" ++ rows live ++ "|wd=" ++ rows del
+  { tags := ["nt"], model := viewsModel mcols file, spec, args := [showCols mcols, hexRle file] }
+
+def rowmasks : Family := { name := "rowmasks", gen := rowmasksGen, eval := rowviewsEval, fixed := 256 }
+
 /-! ### authid -/
 
 def showAuth (as : List Model.AuthInfo) : String :=
@@ -293,8 +355,11 @@ def authidGen (seed idx size : Nat) : Case :=
   let nopw := vers.any fun (r, _) => r.password.isNone
   let long := vers.any fun (r, _) => match r.password with | some p => p.length > 126 | none => false
   let dead := vers.any fun (_, m) => !Spec.liveBits m
+  -- hypotheses of C14_roles
+  let hyp := blocksWF blocks && vers.all (fun (r, m) => decide r.WF && m < 65536) &&
+    decide ((blocks.flatMap Spec.Block.tuples) = vers.map fun (r, m) => Spec.encRole r m)
   { tags := [s!"pages={blocks.length}", (if vers.length < 10 then "roles<10" else if vers.length < 100 then "roles<100" else "roles>=100")] ++
-            (if nopw then ["has:nopw"] else []) ++ (if long then ["has:longpw"] else []) ++ (if dead then ["has:dead"] else []) ++
+            (if nopw then ["has:nopw"] else []) ++ (if long then ["has:longpw"] else []) ++ (if dead then ["has:dead"] else []) ++ [hypTag hyp] ++
             (if vers.isEmpty then [] else ["nt"]),
     model := showM showAuth (Model.parsePGAuthID file), spec, args := [hexRle file] }
 
@@ -331,6 +396,33 @@ def rowmutGen (seed idx size : Nat) : Case :=
     args := [showCols mcols, showBitmap bitmap, hexRle data] }
 
 def rowmut : Family := { name := "rowmut", gen := rowmutGen, eval := rowmutEval }
+
+/-- rowraw: the same hostile schemas / corrupted tuples, but comparing the decoded row itself (spec silent):
+model fidelity on the paths no well-formed row reaches (fallback alignments, negative Num, Len 0 / −3, …) -/
+def rowrawGen (seed idx size : Nat) : Case :=
+  let c := rowmutGen (seed + 1000003) idx size
+  { tags := ["nt"], model := rowdecEval c.args, spec := "-", args := c.args }
+
+def rowraw : Family := { name := "rowraw", gen := rowrawGen, eval := rowdecEval }
+
+/-- varlenaraw: ReadVarlena on arbitrary and near-valid bytes, full result compared (spec silent) -/
+def varlenarawGen (seed idx _size : Nat) : Case :=
+  let data : Bytes :=
+    (do match ← Gen.below 4 with
+        | 0 => Gen.bytes (← Gen.range 0 24)
+        | 1 => do
+          let hdr ← Gen.oneOf [0, 1, 2, 3, 4, 5, 0x12, 0x40, 0x41, 0x80, 0x81, 0xfe, 0xff, 7, 9]
+          return hdr :: (← Gen.bytes (← Gen.oneOf [0, 1, 2, 3, 4, 16, 17, 18, 30, 126, 127, 128]))
+        | _ => do
+          let d ← Gen.genDatum ⟨[], 25, -1, 4⟩
+          let enc := match d with
+            | .long p => le 4 ((p.length + 4) * 4) ++ p
+            | .compressed raw => le 4 ((raw.length + 4) * 4 + 2) ++ raw
+            | d => Spec.formDatum ⟨[], 25, -1, 4⟩ 0 d
+          Gen.mutate [(0, 1), (0, 4), (1, 1)] 2 enc).run' (Prng.ofSeed seed idx)
+  { tags := ["nt"], model := showM showVarlena (Model.readVarlena data), spec := "-", args := [hexRle data] }
+
+def varlenaraw : Family := { name := "varlenaraw", gen := varlenarawGen, eval := varlenaEval }
 
 def filemutModel (mcols : List Model.Column) (file : Bytes) : String :=
   let all := [okOrPanicR (Model.readRows dec file mcols false), okOrPanicR (Model.readRows dec file mcols true),
